@@ -52,7 +52,7 @@ CHECKS = {
 NOT_YET = {}
 # thorough tiers whose ledger was curated at that tier with the final code (a thorough command is only
 # registered when it has been seen silent on the unchanged tree)
-THOROUGH_OK = {"C01", "C02", "C03", "C04", "C05", "C06", "C07", "C08", "C09", "C11", "C13", "C14", "C15", "C17", "C18"}
+THOROUGH_OK = {"C01", "C02", "C03", "C04", "C05", "C06", "C07", "C08", "C09", "C10", "C11", "C13", "C14", "C15", "C17", "C18", "C20"}
 NOTES = {
     "C01": "Trusted: CPython's sys.monitoring event counts as the work measure; bounds: B(core,3)+B(core19,4)+B(wide,2)+mli/mli2+Iw(3)+E(7)+Br(5) quick, one level deeper thorough; polynomial claim only measured on pumped families up to n=64/128.",
     "C02": "Trusted: the identity oracle (string equality); documents that fail to parse are C01's and skipped.",
